@@ -4,7 +4,13 @@ from vlib.skyb import hx
 
 PID = "C02"
 LEAN_MODULE = "Sb.Properties.C02"
-THEOREMS = []
+THEOREMS = [
+    "Sb.C02.opcodes_match_format", "Sb.C02.timing_constants", "Sb.C02.loopBegin_depth", "Sb.C02.loopEnd_depth",
+    "Sb.C02.loopBegin_full", "Sb.C02.loopEnd_cases", "Sb.C02.pyro_mask", "Sb.C02.lerpChan_zero", "Sb.C02.lerpChan_one",
+    "Sb.C02.lerpChan_le", "Sb.C02.ended_held", "Sb.C02.execCommand_ended",
+]
+ASSUMPTIONS = ["no signal source attached (the C API offers none): channel commands yield black, triggers never fire",
+               "inside a fade a channel may differ by less than one unit (+2^-10 float slack) from exact linear interpolation"]
 RULE = ("grammar-based programs over all 22 opcodes (nested loops to depth 6, counts {0,1,2,3,255}, forward/backward/out-of-range/"
         "invalid jumps, clock resets, wait-until in the past and future, zero-length set/fade/sleep, truncated final command, unknown "
         "opcodes, multi-byte varints) in which every loop iteration and jump cycle consumes time; a FRESH player per timestamp; "
